@@ -57,30 +57,51 @@ ODML_TARGETS = {'v1_1': '.xml', 'odml': '.odml'}
 # content of the generated documents and printers
 # ---------------------------------------------------------------------------------------------
 
-def content(base, variant):
+# character repertoires of the text content (author, Section / Property names, values, unit); every encoding is
+# combined with the repertoires it can carry
+REPERTOIRES = {
+    'ascii': {'author': 'me', 'sec': '', 'prop': '', 'val': 'a b', 'unit': 'mV'},
+    'latin1': {'author': 'J\u00fcrgen M\u00fcller', 'sec': 'Ger\u00e4t', 'prop': 'Gr\u00f6\u00dfe',
+               'val': 'M\u00fcnchen \u00df', 'unit': '\u00b5V'},
+    'cp1252': {'author': 'Zo\u00eb \u201cZ\u201d \u0152uvre', 'sec': 'Preis\u20ac', 'prop': 'Co\u00fbt\u20ac',
+               'val': '12 \u20ac \u2013 \u201cok\u201d', 'unit': '\u2030'},
+    'bmp': {'author': '\u0141ukasz \u03a9mega \u65e5\u672c', 'sec': '\u03a9hm',
+            'prop': '\u0442\u0435\u043c\u043f\u0435\u0440\u0430\u0442\u0443\u0440\u0430',
+            'val': '\u6771\u4eac \u2192 \u03b1', 'unit': '\u03a9'},
+    'astral': {'author': 'A\U0001d6fcB \U0001f600', 'sec': 'S\U0001d6fc', 'prop': 'p\U0001d6fd',
+               'val': '\U0001f600 ok', 'unit': '\u00b5V'},
+}
+DOC_DATE = '2008-07-07'
+DOC_VERSION = 'v1.13'
+
+
+def content(base, variant, rep='ascii'):
     """Abstract content of the document stored in file `base` (names carry the file's base name so that
     outputs that got mixed up are noticed)."""
-    p_int = {'name': 'p1', 'dtype': 'int', 'unit': 'mV', 'values': ['1', '2']}
-    p_str = {'name': 'p2', 'dtype': 'string', 'unit': None, 'values': ['a b']}
+    r = REPERTOIRES[rep]
+    p_int = {'name': 'p1', 'dtype': 'int', 'unit': r['unit'], 'values': ['1', '2']}
+    p_str = {'name': 'p2' + r['prop'], 'dtype': 'string', 'unit': None, 'values': [r['val']]}
     p_flt = {'name': 'p3', 'dtype': 'float', 'unit': None, 'values': ['0.5']}
+    sfx = r['sec']
     if variant == 0:
-        secs = [{'name': 'S' + base, 'type': 'rec/t', 'props': [p_int, p_str],
-                 'secs': [{'name': 'C' + base, 'type': 't2', 'props': [], 'secs': []}]}]
+        secs = [{'name': 'S' + base + sfx, 'type': 'rec/t', 'props': [p_int, p_str],
+                 'secs': [{'name': 'C' + base + sfx, 'type': 't2', 'props': [], 'secs': []}]}]
     elif variant == 1:
-        secs = [{'name': 'S' + base, 'type': 't', 'props': [p_str], 'secs': []},
+        secs = [{'name': 'S' + base + sfx, 'type': 't', 'props': [p_str], 'secs': []},
                 {'name': 'T' + base, 'type': 't', 'props': [p_flt, p_int], 'secs': []}]
     else:
-        secs = [{'name': 'S' + base, 'type': 't', 'props': [], 'secs': []}]
-    return {'secs': secs}
+        secs = [{'name': 'S' + base + sfx, 'type': 't', 'props': [p_str] if rep != 'ascii' else [], 'secs': []}]
+    return {'author': r['author'], 'date': DOC_DATE, 'version': DOC_VERSION, 'secs': secs}
 
 
 def canon(cont):
-    """Order independent canonical form of a content tree."""
+    """Order independent canonical form of a content tree (document attributes + Section forest)."""
     def sec(s):
         return (s['name'], s['type'],
                 tuple(sorted((p['name'], p['dtype'], p['unit'], tuple(p['values'])) for p in s['props'])),
                 tuple(sorted(sec(c) for c in s['secs'])))
-    return tuple(sorted(sec(s) for s in cont['secs']))
+    return (('author', cont.get('author')), ('date', cont.get('date')), ('version', cont.get('version')),
+            tuple(sorted(sec(s) for s in cont['secs'])))
 
 
 def to_v10(cont):
@@ -91,7 +112,8 @@ def to_v10(cont):
                     for v in p['values']]
             props.append(g.P(p['name'], vals))
         return g.S(s['name'], props, [sec(c) for c in s['secs']], type_=s['type'])
-    return g.D([sec(s) for s in cont['secs']])
+    return g.D([sec(s) for s in cont['secs']],
+               attrs=(('author', cont['author']), ('date', cont['date']), ('version', cont['version'])))
 
 
 _ids = itertools.count(1)
@@ -118,27 +140,33 @@ def v11_dict(cont):
                 pd['unit'] = p['unit']
             d['properties'].append(pd)
         return d
-    return {'Document': {'id': _new_id(), 'author': 'me', 'sections': [sec(s) for s in cont['secs']]},
+    return {'Document': {'id': _new_id(), 'author': cont['author'], 'date': cont['date'], 'version': cont['version'],
+                         'sections': [sec(s) for s in cont['secs']]},
             'odml-version': '1.1'}
 
 
-def v11_xml(cont):
+def v11_xml(cont, decl=g.XML_DECL):
+    e = g._esc
+
     def sec(s):
-        out = '<section><id>%s</id><type>%s</type><name>%s</name>' % (_new_id(), s['type'], s['name'])
+        out = '<section><id>%s</id><type>%s</type><name>%s</name>' % (_new_id(), e(s['type']), e(s['name']))
         for c in s['secs']:
             out += sec(c)
         for p in s['props']:
             val = p['values'][0] if len(p['values']) == 1 else '[%s]' % ','.join(p['values'])
-            out += '<property><id>%s</id><name>%s</name><value>%s</value>' % (_new_id(), p['name'], val)
+            out += '<property><id>%s</id><name>%s</name><value>%s</value>' % (_new_id(), e(p['name']), e(val))
             if p['unit']:
-                out += '<unit>%s</unit>' % p['unit']
+                out += '<unit>%s</unit>' % e(p['unit'])
             out += '<type>%s</type></property>' % p['dtype']
         return out + '</section>'
-    return ('<?xml version="1.0" encoding="UTF-8"?>\n<odML version="1.1"><id>%s</id><author>me</author>%s</odML>\n'
-            % (_new_id(), ''.join(sec(s) for s in cont['secs'])))
+    return ('%s<odML version="1.1"><id>%s</id><author>%s</author><date>%s</date><version>%s</version>%s</odML>\n'
+            % (decl, _new_id(), e(cont['author']), cont['date'], e(cont['version']),
+               ''.join(sec(s) for s in cont['secs'])))
 
 
-# kind -> (extension, valid?, version, printer)
+BINARY = b'\x89PNG\r\n\x1a\n\x00\x00\x00\rIHDR' + bytes(range(256)) + b'\xff\xfe\x00\x00'
+
+# kind -> (extension, printer of the default form: text (stored as UTF-8) or bytes)
 KINDS = {
     'v10-xml': ('.xml', lambda c: g.to_xml(to_v10(c))),
     'v10-odml': ('.odml', lambda c: g.to_xml(to_v10(c))),
@@ -158,10 +186,140 @@ KINDS = {
     'empty-yaml': ('.yaml', lambda c: ''),
     'text-yaml': ('.yaml', lambda c: 'just some notes\n'),
     'foreign-yaml': ('.yaml', lambda c: 'a:\n- 1\n- 2\nb:\n  c: d\n'),
+    # bad files that are not even text in the encoding a reader would assume
+    'binary-xml': ('.xml', lambda c: BINARY),
+    'latin1text-xml': ('.xml', lambda c: 'Notizen zur Messung: Ger\u00e4t l\u00e4uft, 5 \u00b5V\n'.encode('iso-8859-1')),
+    # declares UTF-8 but holds ISO-8859-1 bytes: an encoding error is a fatal error, the file is not XML
+    'misdeclared-xml': ('.xml', lambda c: ('<?xml version="1.0" encoding="UTF-8"?>\n<odML version="1"><author>J\u00fcrgen'
+                                           '</author><section><name>Ger\u00e4t</name><type>t</type></section></odML>\n'
+                                           ).encode('iso-8859-1')),
+    'binary-json': ('.json', lambda c: BINARY),
+    'binary-yaml': ('.yaml', lambda c: BINARY),
 }
 GOOD = [k for k in KINDS if k.startswith('v1')]
 BAD = [k for k in KINDS if not k.startswith('v1')]
 CORE_BAD = ['empty-xml', 'text-xml', 'malformed-xml', 'foreign-xml']
+ENC_BAD = ['binary-xml', 'latin1text-xml', 'misdeclared-xml']
+XML_GOOD = ['v10-xml', 'v10-odml', 'v11-xml', 'v11-odml']
+DICT_GOOD = ['v10-json', 'v10-yaml', 'v11-json', 'v11-yaml']
+
+
+# ---------------------------------------------------------------------------------------------
+# the stored form of a valid file: encoding, byte order mark, declaration, prolog, line ends
+# ---------------------------------------------------------------------------------------------
+
+BOM8, BOM16LE, BOM16BE = b'\xef\xbb\xbf', b'\xff\xfe', b'\xfe\xff'
+PROLOG = '<?xml-stylesheet type="text/xsl" href="odmlTerms.xsl"?>\n<!-- exported by the lab notebook -->\n'
+
+# form -> (text between file start and root element, codec, byte order mark, transformation, default repertoire)
+XML_FORMS = {
+    'utf-8': ('<?xml version="1.0" encoding="UTF-8"?>\n', 'utf-8', b'', None, 'bmp'),
+    'utf-8-bom': ('<?xml version="1.0" encoding="UTF-8"?>\n', 'utf-8', BOM8, None, 'latin1'),
+    'utf-8-no-declaration': ('', 'utf-8', b'', None, 'bmp'),
+    'utf-8-declaration-without-encoding': ('<?xml version="1.0"?>\n', 'utf-8', b'', None, 'latin1'),
+    'utf-8-bom-no-declaration': ('', 'utf-8', BOM8, None, 'astral'),
+    'iso-8859-1': ('<?xml version="1.0" encoding="ISO-8859-1"?>\n', 'iso-8859-1', b'', None, 'latin1'),
+    'iso-8859-1-lowercase-single-quotes': ("<?xml version='1.0' encoding='iso-8859-1'?>\n", 'iso-8859-1', b'', None,
+                                           'latin1'),
+    'windows-1252': ('<?xml version="1.0" encoding="windows-1252"?>\n', 'cp1252', b'', None, 'cp1252'),
+    'utf-16-le-bom': ('<?xml version="1.0" encoding="UTF-16"?>\n', 'utf-16-le', BOM16LE, None, 'bmp'),
+    'utf-16-be-bom': ('<?xml version="1.0" encoding="UTF-16"?>\n', 'utf-16-be', BOM16BE, None, 'astral'),
+    'us-ascii-character-references': ('<?xml version="1.0" encoding="US-ASCII"?>\n', 'ascii', b'', 'charref', 'bmp'),
+    'utf-8-crlf': ('<?xml version="1.0" encoding="UTF-8"?>\n', 'utf-8', b'', 'crlf', 'latin1'),
+    'utf-8-stylesheet-and-comment-prolog': ('<?xml version="1.0" encoding="UTF-8"?>\n' + PROLOG, 'utf-8', b'', None,
+                                            'latin1'),
+}
+# JSON is UTF-8 without byte order mark by definition; YAML streams may start with one
+DICT_FORMS = {
+    'utf-8-raw': ('utf-8', b'', 'raw', 'bmp'),
+    'ascii-escapes': ('ascii', b'', 'escaped', 'astral'),
+    'utf-8-raw-crlf': ('utf-8', b'', 'raw-crlf', 'latin1'),
+    'utf-8-bom': ('utf-8', BOM8, 'raw', 'latin1'),          # YAML only
+}
+
+
+def _charref(text):
+    out = []
+    for i, ch in enumerate(text):
+        out.append(ch if ord(ch) < 128 else ('&#%d;' if i % 2 else '&#x%X;') % ord(ch))
+    return ''.join(out)
+
+
+def forms_of(kind):
+    if kind in XML_GOOD:
+        return list(XML_FORMS)
+    if kind in DICT_GOOD:
+        return [f for f in DICT_FORMS if f != 'utf-8-bom' or kind.endswith('yaml')]
+    return []
+
+
+def default_rep(kind, form):
+    return (XML_FORMS[form] if kind in XML_GOOD else DICT_FORMS[form])[-1]
+
+
+def can_carry(kind, form, rep):
+    if kind in XML_GOOD:
+        _, codec, _, how, _ = XML_FORMS[form]
+        if how == 'charref':
+            return True
+    else:
+        codec, _, how, _ = DICT_FORMS[form]
+        if how == 'escaped':
+            return True
+    try:
+        ''.join(REPERTOIRES[rep].values()).encode(codec)
+        return True
+    except UnicodeEncodeError:
+        return False
+
+
+def variants_of(kind, tier):
+    """(form, repertoire) pairs of a valid kind: quick = the default repertoire of every form,
+    thorough = every repertoire the form can carry."""
+    for form in forms_of(kind):
+        if tier == 'quick':
+            yield form, default_rep(kind, form)
+        else:
+            for rep in REPERTOIRES:
+                if can_carry(kind, form, rep):
+                    yield form, rep
+
+
+def vlabel(kind, var):
+    """Stable label of a stored form for failure classes."""
+    if var is None:
+        return kind
+    form, rep = var
+    if rep == default_rep(kind, form):
+        return '%s:%s' % (kind, form)
+    return '%s:%s:%s-characters' % (kind, form, rep)
+
+
+def render(kind, cont, var):
+    """The bytes of one input file."""
+    if var is None or kind in BAD:
+        data = KINDS[kind][1](cont)
+        return data if isinstance(data, bytes) else data.encode('utf-8')
+    form, _ = var
+    if kind in XML_GOOD:
+        head, codec, bom, how, _ = XML_FORMS[form]
+        body = g.to_xml(to_v10(cont), decl='') if kind.startswith('v10') else v11_xml(cont, decl='')
+        text = head + body
+        if how == 'charref':
+            text = _charref(text)
+        elif how == 'crlf':
+            text = text.replace('\n', '\r\n')
+        return bom + text.encode(codec)
+    codec, bom, how, _ = DICT_FORMS[form]
+    data = g.to_dict(to_v10(cont)) if kind.startswith('v10') else v11_dict(cont)
+    raw = how != 'escaped'
+    if kind.endswith('json'):
+        text = json.dumps(data, indent=1, ensure_ascii=not raw)
+    else:
+        text = yaml.safe_dump(data, default_flow_style=False, sort_keys=False, allow_unicode=raw)
+    if how == 'raw-crlf':
+        text = text.replace('\n', '\r\n')
+    return bom + text.encode(codec)
 
 
 # ---------------------------------------------------------------------------------------------
@@ -174,7 +332,9 @@ def odml_content(doc):
                 'props': [{'name': p._name, 'dtype': p._dtype, 'unit': p._unit,
                            'values': [_vstr(v) for v in p._values]} for p in list.__iter__(s._props)],
                 'secs': [sec(c) for c in list.__iter__(s._sections)]}
-    return {'secs': [sec(s) for s in list.__iter__(doc._sections)]}
+    date = doc._date
+    return {'author': doc._author, 'date': date.isoformat() if hasattr(date, 'isoformat') else date,
+            'version': doc._version, 'secs': [sec(s) for s in list.__iter__(doc._sections)]}
 
 
 def _vstr(v):
@@ -233,7 +393,9 @@ def rdf_content(path, parse_format):
     docs = list(graph.subjects(RDF.type, ns('Document')))
     if len(docs) != 1:
         raise ValueError('%d odml Documents in the graph' % len(docs))
-    return {'secs': [sec(s) for s in graph.objects(docs[0], ns('hasSection'))]}
+    return {'author': one(docs[0], 'hasAuthor'), 'date': one(docs[0], 'hasDate'),
+            'version': one(docs[0], 'hasDocVersion'),
+            'secs': [sec(s) for s in graph.objects(docs[0], ns('hasSection'))]}
 
 
 # ---------------------------------------------------------------------------------------------
@@ -258,8 +420,9 @@ class Case(object):
     counter = itertools.count()
 
     def __init__(self, layout, in_name='in', name_style='plain'):
-        """layout: list of (relative sub directory ('' = top), kind) in creation order."""
-        self.layout = layout
+        """layout: list of (relative sub directory ('' = top), kind[, (form, repertoire)]) in creation order;
+        without the third entry the file is plain ASCII content stored as UTF-8 with a UTF-8 declaration."""
+        self.layout = [(it[0], it[1], it[2] if len(it) > 2 else None) for it in layout]
         self.root = os.path.join(WORK, 'case%05d' % next(Case.counter))
         shutil.rmtree(self.root, ignore_errors=True)
         self.in_name = in_name
@@ -269,26 +432,34 @@ class Case(object):
         for d in (self.indir, self.outdir, self.cwd):
             os.makedirs(d)
         self.files = []          # dicts: base, kind, sub, rel (to root), content
-        for i, (sub, kind) in enumerate(layout):
-            ext, printer = KINDS[kind]
+        for i, (sub, kind, var) in enumerate(self.layout):
+            ext = KINDS[kind][0]
             base = 'n%02d%s' % (i, kind.replace('-', ''))
             if name_style == 'dotted':
                 # distinct base names that share their first dot-separated segment (session.2020-06-24.xml ...)
                 base = 'rec.%02d.%s' % (i, kind.replace('-', ''))
             elif name_style == 'spaced':
                 base = 'my file %02d %s' % (i, kind.replace('-', ''))
-            cont = content(base, i % 3) if kind in GOOD else None
+            elif name_style == 'non-ascii':
+                base = 'M\u00e4ssung\u65e5_%02d_%s' % (i, kind.replace('-', ''))
+            if kind in BAD:
+                var = None
+            cont = content(base, i % 3, var[1] if var else 'ascii') if kind in GOOD else None
             d = os.path.join(self.indir, sub)
             os.makedirs(d, exist_ok=True)
             path = os.path.join(d, base + ext)
-            with open(path, 'w', encoding='utf-8') as f:
-                f.write(printer(cont))
+            with open(path, 'wb') as f:
+                f.write(render(kind, cont, var))
             self.files.append({'base': base, 'kind': kind, 'sub': sub, 'path': path, 'content': cont,
-                               'rel': os.path.relpath(path, self.root)})
+                               'rel': os.path.relpath(path, self.root), 'var': var, 'label': vlabel(kind, var)})
         self.before = tree_snapshot(self.root)
+        labels = sorted(set(f['label'].split(':', 1)[1] for f in self.files if f['var']))
+        # the stored form that makes this tree special (None: every file in the default form)
+        self.form_label = None if not labels else (labels[0] if len(labels) == 1 else 'several-stored-forms')
 
     def describe(self):
-        return {'layout': [[s, k] for s, k in self.layout], 'input_dir_name': self.in_name}
+        return {'layout': [[s, k] + ([list(v)] if v else []) for s, k, v in self.layout],
+                'input_dir_name': self.in_name, 'file_names': [os.path.basename(f['path']) for f in self.files][:8]}
 
     def cleanup(self):
         shutil.rmtree(self.root, ignore_errors=True)
@@ -363,7 +534,7 @@ def frame_check(ck, case, tool, allowed_prefixes, wit, new_dir_ok=True):
 def _kind_of(case, rel):
     for f in case.files:
         if f['rel'] == rel:
-            return f['kind']
+            return f['label']
     return 'other'
 
 
@@ -371,13 +542,13 @@ def check_odml_output(ck, case, tool, rel, src, wit):
     path = os.path.join(case.root, rel)
     st, doc = h.call(lambda: XMLReader(ignore_errors=False, show_warnings=False).from_file(path))
     if st == 'exc':
-        ck.fail('output-loads', '%s:%s' % (tool, src['kind']), wit, 'output %s of %s does not load strictly: %r'
+        ck.fail('output-loads', '%s:%s' % (tool, src['label']), wit, 'output %s of %s does not load strictly: %r'
                 % (rel, src['rel'], doc))
         return
     got = canon(_norm_values(odml_content(doc)))
     want = canon(_norm_values(src['content']))
     if got != want:
-        ck.fail('output-content', '%s:%s' % (tool, src['kind']), wit, 'output %s of %s: content %r, expected %r'
+        ck.fail('output-content', '%s:%s' % (tool, src['label']), wit, 'output %s of %s: content %r, expected %r'
                 % (rel, src['rel'], got, want))
 
 
@@ -385,13 +556,13 @@ def check_rdf_output(ck, case, tool, rel, src, parse_format, wit):
     path = os.path.join(case.root, rel)
     st, cont = h.call(rdf_content, path, parse_format)
     if st == 'exc':
-        ck.fail('output-loads', '%s:%s' % (tool, src['kind']), wit, 'output %s of %s does not parse as %s RDF '
+        ck.fail('output-loads', '%s:%s' % (tool, src['label']), wit, 'output %s of %s does not parse as %s RDF '
                 'with one odml Document: %r' % (rel, src['rel'], parse_format, cont))
         return
     got = canon(_norm_values(cont))
     want = canon(_norm_values(src['content']))
     if got != want:
-        ck.fail('output-content', '%s:%s' % (tool, src['kind']), wit, 'RDF output %s of %s: content %r, expected %r'
+        ck.fail('output-content', '%s:%s' % (tool, src['label']), wit, 'RDF output %s of %s: content %r, expected %r'
                 % (rel, src['rel'], got, want))
 
 
@@ -425,6 +596,8 @@ def run_cli(ck, case, tool, recursive, explicit):
     if status != 'ret':
         kinds = sorted(set(f['kind'] for f in in_scope if f['kind'] in BAD))
         label = kinds[0] if len(kinds) == 1 else ('several-bad-kinds' if kinds else 'only-good-files')
+        if case.form_label:
+            label += ':' + case.form_label
         ck.fail('run-completes', '%s:%s' % (tool, label), wit, 'main(%r) ended with %s %r' % (argv, status, val))
     by_src = {}
     for rel in new_files:
@@ -434,7 +607,7 @@ def run_cli(ck, case, tool, recursive, explicit):
             continue
         by_src.setdefault(src['base'], []).append(rel)
         if src['kind'] in BAD:
-            ck.fail('bad-file-skipped', '%s:%s' % (tool, src['kind']), wit, 'bad file %s has output %s' % (src['rel'], rel))
+            ck.fail('bad-file-skipped', '%s:%s' % (tool, src['label']), wit, 'bad file %s has output %s' % (src['rel'], rel))
             continue
         if src not in in_scope:
             ck.fail('scope', '%s:non-recursive' % tool, wit, 'file %s in a sub directory was converted without -r' % src['rel'])
@@ -446,18 +619,18 @@ def run_cli(ck, case, tool, recursive, explicit):
         outs = by_src.get(f['base'], [])
         if f['kind'] in BAD:
             if not reported(text, f['path']):
-                ck.fail('bad-file-reported', '%s:%s' % (tool, f['kind']), wit,
+                ck.fail('bad-file-reported', '%s:%s' % (tool, f['label']), wit,
                         'the report has no error / skip line for %s; lines naming it: %r'
                         % (f['rel'], [ln for ln in text.splitlines() if f['path'] in ln][:3]))
             continue
         position = _position_feature(case, f, in_scope)
         if tool == 'odmlconvert':
             if f['kind'].startswith('v10') and not any(o.endswith(('.xml', '.odml')) for o in outs):
-                ck.fail('convertible-gets-output', '%s:%s' % (tool, f['kind']), wit,
+                ck.fail('convertible-gets-output', '%s:%s' % (tool, f['label']), wit,
                         '1.0 file %s (%s) got no converted file (outputs %r)' % (f['rel'], position, outs))
         else:
             if not any(o.endswith('.rdf') for o in outs):
-                ck.fail('convertible-gets-output', '%s:%s' % (tool, f['kind']), wit,
+                ck.fail('convertible-gets-output', '%s:%s' % (tool, f['label']), wit,
                         'valid file %s (%s) got no RDF file (outputs %r); report lines: %r'
                         % (f['rel'], position, outs, [ln for ln in text.splitlines() if f['path'] in ln][-2:]))
 
@@ -487,7 +660,9 @@ def run_fc(ck, case, target, recursive, explicit, via_args, expect_ok):
     in_scope = [f for f in case.files if recursive or f['sub'] == '']
     if status != 'ret':
         if expect_ok:
-            ck.fail('run-completes', '%s:%s:only-valid-files' % (tool, 'rdf' if target in RDF_TARGETS else target), wit,
+            ck.fail('run-completes', '%s:%s:only-valid-files%s'
+                    % (tool, 'rdf' if target in RDF_TARGETS else target, ':' + case.form_label if case.form_label else ''),
+                    wit,
                     'conversion of a directory of valid files ended with %s %r' % (status, val))
         # the statement does not promise isolation of bad files for the format converter: only frame + outputs
     by_src = {}
@@ -506,7 +681,7 @@ def run_fc(ck, case, target, recursive, explicit, via_args, expect_ok):
     if status == 'ret' and expect_ok:
         for f in in_scope:
             if not by_src.get(f['base']):
-                ck.fail('convertible-gets-output', '%s:%s:%s' % (tool, target, f['kind']), wit,
+                ck.fail('convertible-gets-output', '%s:%s:%s' % (tool, target, f['label']), wit,
                         'valid file %s got no output' % f['rel'])
         for f in case.files:
             if f not in in_scope and by_src.get(f['base']):
@@ -558,6 +733,77 @@ def cli_layouts(tier, rnd):
         yield ('random', i), lay
 
 
+def form_layouts(tier, rnd):
+    """Directory trees for the command line tools whose valid files vary in their stored form (encoding, byte
+    order mark, declaration, prolog, line ends, character repertoire), alone and mixed with files to be skipped."""
+    # every valid kind in every stored form alone
+    for kind in GOOD:
+        for var in variants_of(kind, tier):
+            yield ('form-single', kind, var), [('', kind, var)]
+    # every stored form next to every bad kind that has to be skipped, both creation orders, flat and nested
+    bads = CORE_BAD + ENC_BAD
+    for kind in XML_GOOD:
+        if tier == 'quick' and kind.endswith('odml'):
+            continue
+        for i, form in enumerate(forms_of(kind)):
+            var = (form, default_rep(kind, form))
+            for j, bad in enumerate(bads):
+                if (tier == 'quick' or kind.endswith('odml')) and j != (i + len(kind)) % len(bads):
+                    continue            # round robin: one bad kind per stored form
+                yield ('form-pair', kind, var, bad, 'good-first'), [('', kind, var), ('', bad)]
+                yield ('form-pair', kind, var, bad, 'bad-first'), [('', bad), ('', kind, var)]
+                if tier != 'quick':
+                    yield ('form-pair', kind, var, bad, 'nested'), [('sub', bad), ('', kind, var), ('sub', kind, var)]
+    for kind in DICT_GOOD:
+        for form in forms_of(kind):
+            var = (form, default_rep(kind, form))
+            for bad in ('binary-' + kind[4:], 'text-' + kind[4:]):
+                yield ('form-pair', kind, var, bad, 'good-first'), [('', kind, var), ('', bad)]
+                yield ('form-pair', kind, var, bad, 'bad-first'), [('', bad), ('', kind, var)]
+    # one file of every stored form together with every bad kind, three nestings
+    every = []
+    for i, form in enumerate(XML_FORMS):
+        kind = XML_GOOD[i % 4]
+        every.append((kind, (form, default_rep(kind, form))))
+    for kind in DICT_GOOD:
+        for form in forms_of(kind):
+            every.append((kind, (form, default_rep(kind, form))))
+    mixed = []
+    bad_cycle = itertools.cycle(BAD)
+    for k, v in every:
+        mixed.append((k, v))
+        mixed.append((next(bad_cycle), None))
+    yield ('form-all', 'valid-only', 'flat'), [('', k, v) for k, v in every]
+    yield ('form-all', 'mixed', 'flat'), [('', k, v) for k, v in mixed]
+    yield ('form-all', 'mixed', 'nested'), [(['', 'sub', 'sub/deep'][i % 3], k, v) for i, (k, v) in enumerate(mixed)]
+    yield ('form-all', 'mixed', 'nested-reversed'), [(['sub/deep', 'sub', ''][i % 3], k, v)
+                                                     for i, (k, v) in enumerate(reversed(mixed))]
+    # random mixtures
+    for i in range(10 if tier == 'quick' else 120):
+        lay = []
+        for _ in range(rnd.randint(3, 7)):
+            kind = rnd.choice(list(KINDS))
+            var = None
+            if kind in GOOD and rnd.random() < 0.8:
+                form = rnd.choice(forms_of(kind))
+                var = (form, rnd.choice([r for r in REPERTOIRES if can_carry(kind, form, r)]))
+            lay.append((rnd.choice(['', '', 'sub', 'sub/deep', 'other']), kind, var))
+        yield ('form-random', i), lay
+
+
+def fc_form_layouts(tier, source_kinds):
+    """Directories of valid files in varying stored forms for the format converter."""
+    a, b = source_kinds[0], source_kinds[-1]
+    for k, kind in enumerate((a, b)):
+        for var in variants_of(kind, tier):
+            if tier == 'quick' and k == 1 and var[0] not in ('iso-8859-1', 'utf-16-le-bom', 'utf-8-bom'):
+                continue
+            yield ('form-single', kind, var), [('', kind, var)]
+    every = [((a, b)[i % 2], (form, default_rep(a, form))) for i, form in enumerate(XML_FORMS)]
+    yield ('form-all', 'flat'), [('', k, v) for k, v in every]
+    yield ('form-all', 'nested'), [(['', 'sub', 'sub/deep'][i % 3], k, v) for i, (k, v) in enumerate(every)]
+
+
 def fc_layouts(tier, rnd, source_kinds):
     a, b = source_kinds[0], source_kinds[-1]
     yield ('flat2',), [('', a), ('', b)]
@@ -599,8 +845,23 @@ def run_batch(tier, seed):
                         run_cli(ck, case, tool, recursive, explicit)
                     finally:
                         case.cleanup()
-        # ---- file names with inner dots / spaces (unique base names, shared first segment)
-        for style in ('dotted', 'spaced'):
+        # ---- stored forms of the valid files (encoding, byte order mark, declaration, prolog, line ends)
+        rnd_forms = random.Random('forms-%r' % (seed,))
+        for n, (key, layout) in enumerate(form_layouts(tier, rnd_forms)):
+            configs = CONFIGS
+            if key[0] == 'form-pair' or (tier == 'quick' and key[0] != 'form-all'):
+                configs = [CONFIGS[n % 4]] if tier == 'quick' else [CONFIGS[n % 4], CONFIGS[(n + 3) % 4]]
+            for tool in ('odmlconvert', 'odmltordf'):
+                for recursive, explicit in configs:
+                    case = Case(layout)
+                    col.case(cls_key=(key, tool, recursive, explicit),
+                             sample='%s %r -r=%s -o=%s' % (tool, key, recursive, explicit))
+                    try:
+                        run_cli(ck, case, tool, recursive, explicit)
+                    finally:
+                        case.cleanup()
+        # ---- file names with inner dots / spaces / non-ASCII characters (unique base names, shared first segment)
+        for style in ('dotted', 'spaced', 'non-ascii'):
             for layout in ([('', 'v10-xml'), ('', 'v10-xml'), ('sub', 'v10-xml')],
                            [('', 'v10-xml'), ('', 'v10-json'), ('', 'v11-xml')],
                            [('', 'v11-xml'), ('sub', 'v11-xml'), ('', 'v10-yaml')]):
@@ -628,6 +889,29 @@ def run_batch(tier, seed):
                             run_fc(ck, case, target, recursive, explicit, via_args, expect_ok=True)
                         finally:
                             case.cleanup()
+            # stored forms of the valid source files
+            for n, (key, layout) in enumerate(fc_form_layouts(tier, sources)):
+                configs = CONFIGS if tier != 'quick' or key[0] == 'form-all' and target in ('v1_1', 'odml', 'turtle') \
+                    else [CONFIGS[n % 4]]
+                for recursive, explicit in configs:
+                    via_args = bool((n + recursive + explicit) % 2)
+                    case = Case(layout)
+                    col.case(cls_key=('fc', key, target, recursive, explicit, via_args),
+                             sample='formatconverter %s %r -r=%s out=%s' % (target, key, recursive, explicit))
+                    try:
+                        run_fc(ck, case, target, recursive, explicit, via_args, expect_ok=True)
+                    finally:
+                        case.cleanup()
+            # file names with non-ASCII characters
+            for recursive, explicit in ((True, False), (False, True)):
+                case = Case([('', sources[0]), ('sub', sources[1]), ('', sources[0], ('utf-16-le-bom', 'bmp'))],
+                            name_style='non-ascii')
+                col.case(cls_key=('fc-names', 'non-ascii', target, recursive, explicit),
+                         sample='formatconverter %s non-ASCII file names' % target)
+                try:
+                    run_fc(ck, case, target, recursive, explicit, False, expect_ok=True)
+                finally:
+                    case.cleanup()
             # input directory names a user may well have; only frame + outputs matter here
             for in_name in ('data+set', 'run(1)', 'my.data') if tier != 'quick' or target in ('v1_1', 'odml', 'nt') \
                     else ('data+set',):
@@ -640,7 +924,8 @@ def run_batch(tier, seed):
                     finally:
                         case.cleanup()
             # mixed directories: the run may stop at a bad file, inputs and output location still have to be respected
-            bads = CORE_BAD + ['v10-json', 'v11-yaml'] if tier != 'quick' else ['empty-xml', 'foreign-xml', 'v11-json']
+            bads = CORE_BAD + ENC_BAD + ['v10-json', 'v11-yaml'] if tier != 'quick' \
+                else ['empty-xml', 'foreign-xml', 'v11-json', 'binary-xml']
             for bad in bads:
                 for recursive, explicit in ((True, True), (False, False)):
                     for lay in ([('', sources[0]), ('', bad)], [('', bad), ('sub', sources[0])]):
